@@ -28,6 +28,7 @@ mutual
     | .cell _ => true
     | .date _ => true
     | .tdelta _ => true
+    | .cdelta _ => true
     | .nat => true
     | .list xs => EVal.sizedList xs
     | .tuple xs => EVal.sizedList xs
@@ -58,6 +59,7 @@ mutual
     | .cell _, _ => rfl
     | .date _, _ => rfl
     | .tdelta _, _ => rfl
+    | .cdelta _, _ => rfl
     | .nat, _ => rfl
     | .list xs, h => by
         simp only [EVal.norm, EVal.sized] at h ⊢; exact normList_sized xs h
@@ -229,6 +231,7 @@ mutual
     | .cell _, b, _, _ => by cases b <;> simp [eqNR, eqN]
     | .date _, b, _, _ => by cases b <;> simp [eqNR, eqN]
     | .tdelta _, b, _, _ => by cases b <;> simp [eqNR, eqN]
+    | .cdelta _, b, _, _ => by cases b <;> simp [eqNR, eqN]
     | .nat, b, _, _ => by cases b <;> simp [eqNR, eqN]
     | .list xs, b, ha, hb => by
         cases b <;> try (simp [eqNR, eqN]; done)
@@ -369,6 +372,7 @@ mutual
     | .cell _, b => by cases b <;> (simp only [eqNR]; exact ⟨_, rfl⟩)
     | .date _, b => by cases b <;> (simp only [eqNR]; exact ⟨_, rfl⟩)
     | .tdelta _, b => by cases b <;> (simp only [eqNR]; exact ⟨_, rfl⟩)
+    | .cdelta _, b => by cases b <;> (simp only [eqNR]; exact ⟨_, rfl⟩)
     | .nat, b => by cases b <;> (simp only [eqNR]; exact ⟨_, rfl⟩)
     | .list xs, b => by
         cases b <;> try (simp only [eqNR]; exact ⟨_, rfl⟩; done)
